@@ -243,3 +243,13 @@ def t_pb_trace_tall():
         err, msg = 1., 'raised %s' % type(ex).__name__
     report('F-C03-10', err < 1e-12, 'gradient of trace(x)**2 for a (3,2) matrix: %s' % msg)
 t_pb_trace_tall()
+
+
+def t_pow_negative_int():
+    x0 = numpy.array([1.5, 2.0])
+    cg = CGraph(); x = Function(x0.copy()); f = algopy.sum(x ** -2); cg.trace_off()
+    cg.independentFunctionList = [x]; cg.dependentFunctionList = [f]
+    g = cg.gradient(x0)
+    err = abs(g + 2 * x0 ** -3.).max()
+    report('F-C03-11', err < 1e-12, 'gradient of sum(x**-2) vs -2 x**-3: err %.2g' % err)
+t_pow_negative_int()
